@@ -670,6 +670,12 @@ def r1_5(ctx, rep):
                 elif isinstance(n, ast.AugAssign) and is_self_attr(n.target, attr):
                     tgt = n
                 if tgt is not None:
+                    if mname not in who and isinstance(tgt, ast.AugAssign) and isinstance(tgt.op, ast.Add) and attr == "current" \
+                            and any(isinstance(x, ast.Call) for x in ast.walk(tgt.value)):
+                        # a forward stride computed from the text (e.g. the number of characters a predicate accepts): neither the
+                        # single-step discipline nor a recognisable breach of it - the cursor model cannot follow it
+                        rep.defer(f"R1.5: {cls.name}.{mname} advances the cursor by a computed stride `{short(tgt, 70)}`, which the cursor model does not follow")
+                        continue
                     obl(rep, m, tgt, "R1.5", mname in who,
                         f"write to {cls.name}.{attr} in {mname}", f"writers allowed: {sorted(who)}",
                         f"{cls.name}.{attr} is written outside {sorted(who)}", nontrivial=False)
@@ -815,7 +821,10 @@ def r1_8(ctx, rep):
     adds = [x for x in calls_in(f.node) if dotted(x.func) == "self.add_token"]
     ok = len(guards) >= 1 and bool(adds) and all(c.dominates(c.node_of(guards[0]), c.node_of(a)) for a in adds)
     loops = [n for n in walk_local(f.node) if isinstance(n, ast.While)]
-    ok = ok and len(loops) == 1 and "self.at_end()" in unparse(loops[0].test)
+    if not loops:
+        rep.defer("R1.8: Scanner.char skips the string body without a `while` loop: the end-of-input condition of the skip is not modelled")
+    else:
+        ok = ok and len(loops) == 1 and "self.at_end()" in unparse(loops[0].test)
     obl(rep, f, guards[0] if guards else f.node, "R1.8", ok,
         "char: raises when the input ends before the closing quote (guard dominates the token)",
         "", "unterminated string is not refused before the STRING token is emitted")
@@ -971,9 +980,13 @@ def r1_9(ctx, rep):
             loops = [n for n in walk_local(scan.node) if isinstance(n, ast.While)]
             if loops:
                 okdef = okdef and c.dominates(c.node_of(loops[0]), c.node_of(defs[0]))
-        obl(rep, scan, defs[0] if defs else scan.node, "R1.9", okdef,
-            f"`{xname}` lists the positions of all `~` tokens of the complete token list", why,
-            f"`{xname}` is not recognisably the list of all `~` positions ({why})")
+        if not okdef and not (len(defs) == 1 and isinstance(defs[0].value, ast.ListComp)):
+            # not a comprehension at all (itertools, a helper, ...): neither recognisably right nor recognisably wrong
+            rep.defer(f"R1.9: the definition of `{xname}` (`{short(defs[0].value, 60) if defs else '?'}`) is not a form the tilde model reads")
+        else:
+            obl(rep, scan, defs[0] if defs else scan.node, "R1.9", okdef,
+                f"`{xname}` lists the positions of all `~` tokens of the complete token list", why,
+                f"`{xname}` is not recognisably the list of all `~` positions ({why})")
     # the implicit intercept, decided on a symbolic model of the token list: the statements after the EOF append are
     # evaluated for every tilde count k in {0, 1, 2} and add_intercept in {True, False}; T is the scanned list, t the
     # position of the single `~`
